@@ -834,7 +834,11 @@ impl<'t> Gen<'t> {
                 if self.t.coin() {
                     pieces.push(Piece::Text(self.text(&tag)));
                 }
-                let value = if ok {
+                let value = if loc != p.default_locale() && self.cfg.fk_to_null && (self.t.pick(100) as u32) < self.cfg.p_null.max(10) {
+                    // the reference key itself is an explicit default here: later references to it
+                    // in this locale must follow the fallback chain to a value that is itself a reference
+                    Value::Null
+                } else if ok {
                     Value::Str(normalize_pieces(pieces))
                 } else if loc == p.default_locale() {
                     // cannot reference in the default locale: make it a plain key instead
